@@ -315,6 +315,10 @@ func replayRepo(k repoKind, init string, hist []repoOp) (state string, viol stri
 
 func repoUnit(c *core.Ctx, k repoKind, init string, depth int) {
 	batches := [][]int{{}, {0}, {1, 2}, {2}, {3}}
+	monotone := k.name == "sql" // the order a SQL dialect returns rows in is its own business; the other two store append order
+	if !monotone {
+		batches = append(batches, []int{3, 1}) // a back-fill: stored order is not date order
+	}
 	type st struct {
 		h    []repoOp
 		last map[string]int
@@ -331,7 +335,7 @@ func repoUnit(c *core.Ctx, k repoKind, init string, depth int) {
 		for _, s := range frontier {
 			for _, name := range []string{"A", "B"} {
 				for bi, b := range batches {
-					if len(b) > 0 && b[0] < s.last[name] {
+					if monotone && len(b) > 0 && b[0] < s.last[name] {
 						continue // dates are monotone per asset (equal dates allowed)
 					}
 					op := repoOp{Name: name, Batch: b, Var: (len(s.h) + bi) % 3}
@@ -374,7 +378,7 @@ func repoUnit(c *core.Ctx, k repoKind, init string, depth int) {
 func init() {
 	core.Register(&core.Check{
 		ID:   "C10",
-		Rule: "explicit-state BFS over Append histories (2 asset names x 5 date-monotone batches incl. empty and equal-date boundary, depth 4 / 5 thorough) on the real in-memory, file-system (initial states: empty dir, existing empty file, header-only file) and SQL (over an in-harness conforming database/sql driver) repositories, deduplicated on the concrete persisted state; in every state every read (Get, GetSince at every date and between dates, LastDate, Assets for two known and one unknown name) is compared with the map model and must leave the state unchanged; every history runs as one controlled execution, so 'Append has returned => visible' and hangs are decided without clocks; non-trivial = non-initial states",
+		Rule: "explicit-state BFS over Append histories (2 asset names x 5 batches incl. empty and equal-date boundary, plus out-of-date-order back-fills for the in-memory and file-system repositories, depth 4 / 5 thorough) on the real in-memory, file-system (initial states: empty dir, existing empty file, header-only file) and SQL (over an in-harness conforming database/sql driver) repositories, deduplicated on the concrete persisted state; in every state every read (Get, GetSince at every date and between dates, LastDate, Assets for two known and one unknown name) is compared with the map model and must leave the state unchanged; every history runs as one controlled execution, so 'Append has returned => visible' and hangs are decided without clocks; non-trivial = non-initial states",
 		Assume: []string{"SQL repository is exercised over the harness's fake driver only (rows in insertion order, positional parameters)", "snapshot values: finite floats incl. 0.1, 1/3, 1e21; whole-day UTC dates in 2021",
 			"an asset that was appended with empty batches only may or may not be listed / readable (not constrained by the property)"},
 		Units: func(tier string) []core.Unit {
